@@ -542,8 +542,8 @@ class C08(Prop):
         "sendall fails only when the other end has closed (simulated network); request ids are fresh counters; a KeyError of "
         "_handle_subscription_reply (unknown request id) is a contained no-op",
         "quiescent consistency (both tables agree once nothing is in flight and no stop is in progress, QuiescentConsistencySettled) is "
-        "refuted in Lean for the model of the current source (quiescent_consistency_false: stale removal notice, known finding) and not "
-        "proved for the repaired one; it is checked per history by the oracle (table iff in both directions, probes, transmitted peers); "
+        "stated but not proved in Lean for the model of the current source (it was false before a22664f: stale removal notice, see "
+        "staleTrace_ends_consistent); it is checked per history by the oracle (table iff in both directions, probes, transmitted peers); "
         "termination of the internal activity (a decreasing measure) is not mechanised: subscribe_terminates covers states at rest",
         "the deterministic scheduler, the simulated network and the tap layer (harness/props/pubsub_common.py)",
     ]
